@@ -1583,5 +1583,41 @@ theorem ret_neg_iff (L : Option Limit) (gs : List (List Ch)) (t : Tail) (pos : P
   | false => simp; omega
 
 
+
+/-! ### more fuel never changes a result -/
+
+theorem loop_mono (mem : Mem) (L : Option Limit) (start : Nat) :
+    ∀ (fuel str : Nat) (len : Option Nat) (here pos : Pos) (hi : Nat) (r : Int) (p : Pos) (hi' : Nat),
+      loop mem L start fuel str len here pos hi = .ret r p hi' →
+      loop mem L start (fuel + 1) str len here pos hi = .ret r p hi' := by
+  intro fuel
+  induction fuel with
+  | zero => intro str len here pos hi r p hi' h; simp [loop] at h
+  | succ f ih =>
+    intro str len here pos hi r p hi' h
+    rw [loop] at h ⊢
+    split at h
+    · exact h
+    · exact h
+    · rename_i n cp w hh hst
+      simp only at h ⊢
+      by_cases hex : exceeds L here n w = true
+      · simp only [hex, if_true] at h ⊢; exact h
+      · have hex' : exceeds L here n w = false := by simpa using hex
+        simp only [hex', Bool.false_eq_true, if_false] at h ⊢
+        exact ih _ _ _ _ _ _ _ _ h
+
+theorem ncountmore_mono (mem : Mem) (f g : Nat) (len : Option Nat) (pos : Pos) (L : Option Limit)
+    (r : Int) (p : Pos) (hi : Nat) (hfg : f ≤ g)
+    (h : ncountmore mem f len pos L = .ret r p hi) : ncountmore mem g len pos L = .ret r p hi := by
+  induction g with
+  | zero => have : f = 0 := by omega
+            subst this; exact h
+  | succ g ih =>
+    rcases Nat.lt_or_ge f (g + 1) with hlt | hge
+    · exact loop_mono mem L _ g _ _ _ _ _ _ _ _ (ih (by omega))
+    · have : f = g + 1 := by omega
+      subst this; exact h
+
 end Utf8
 end Tickit
